@@ -9,7 +9,7 @@ func init() {
 			{Name: "subrequests", Pkg: ".", Files: files, Entry: "VerifSubRequests", Mode: "seq", Native: true,
 				Quick: map[string]int{"k": 1}, Thorough: map[string]int{"k": 2},
 				Reach: []string{"operation translated"}, Functions: pipelineFns,
-				Known: []string{"C02-node-without-fragment", "C02-abs-interface-field-plus-fragment", "C02-abs-fragment-on-interface", "C02-abs-fragment-on-one-implementer"}},
+				Known: []string{"C02-node-without-fragment", "C02-response-key-id-taken", "C02-abs-interface-field-plus-fragment", "C02-abs-fragment-on-interface", "C02-abs-fragment-on-one-implementer"}},
 		},
 		Assume: []string{
 			"gqlparser runs natively on concrete strings (sub-requests are validated by the real validator against the service's own schema)",
